@@ -179,6 +179,8 @@ class NativeContract(object):
         self.pre = cls.__dict__.get('pre')
         self.spec = cls.__dict__.get('spec')
         self.post = cls.__dict__.get('post')
+        self.post_native = cls.__dict__.get('post_native')     # clauses only the bounded native run can evaluate
+        self.abstract = cls.__dict__.get('abstract')           # functional abstraction handed to callers
         self.claim = cls.__dict__.get('claim')
         self.is_lemma = contract.is_lemma
         if not self.is_lemma:
@@ -211,20 +213,27 @@ class NativeContract(object):
             actual = api.Outcome(True, value=prod[0])
         detail = {'observed': repr(actual)}
         ok = True
+        if self.abstract is not None:
+            expected = call_outcome(self.abstract, vals)
+            detail['expected'] = repr(expected)
+            if not outcomes_same(actual, expected):
+                ok = False
         if self.spec is not None:
             expected = call_outcome(self.spec, vals)
             detail['expected'] = repr(expected)
             if not outcomes_same(actual, expected):
                 ok = False
-        if self.post is not None:
+        for pf in (self.post, self.post_native):
+            if pf is None:
+                continue
             try:
-                r = self.post(*(vals + [actual]))
+                r = pf(*(vals + [actual]))
             except Exception as ex:
                 r = False
                 detail['post_raised'] = repr(ex)
             if not r:
                 ok = False
-                detail.setdefault('expected', 'post(...) holds')
+                detail.setdefault('expected', '%s(...) holds' % pf.__name__)
         return True, ok, detail
 
     def sample_inputs(self, rng, limit):
